@@ -32,8 +32,21 @@ func RenameBlankIdentifier(sig *types.Signature) *types.Signature {
 func RenameBlankIdentifierWith(sig *types.Signature, prefix string) *types.Signature {
 	params := sig.Params()
 	results := unnamed(sig.Results())
+	if shadows := shadowing(sig); len(shadows) > 0 {
+		// a parameter that is called like a type or package that the signature itself mentions (time int64, d time.Duration)
+		// would hide it from the signatures of the closures that the wrapper returns: it is renamed like a blank one.
+		vars := make([]*types.Var, params.Len())
+		for i := range vars {
+			v := params.At(i)
+			if shadows[v.Name()] {
+				v = types.NewVar(v.Pos(), v.Pkg(), blackIdentifier, v.Type())
+			}
+			vars[i] = v
+		}
+		params = types.NewTuple(vars...)
+	}
 	if !hasBlankIdentifier(params) {
-		if results == sig.Results() {
+		if results == sig.Results() && params == sig.Params() {
 			return sig
 		}
 		return types.NewSignature(sig.Recv(), params, results, sig.Variadic())
@@ -61,6 +74,72 @@ func unnamed(results *types.Tuple) *types.Tuple {
 		vars[i] = types.NewVar(v.Pos(), v.Pkg(), "", v.Type())
 	}
 	return types.NewTuple(vars...)
+}
+
+// shadowing returns the parameter names of the signature that are also the name of a type or package
+// mentioned by one of its parameter or result types.
+func shadowing(sig *types.Signature) map[string]bool {
+	mentioned := make(map[string]bool)
+	seen := make(map[types.Type]bool)
+	var walk func(t types.Type)
+	walk = func(t types.Type) {
+		if t == nil || seen[t] {
+			return
+		}
+		seen[t] = true
+		switch typ := t.(type) {
+		case *types.Basic:
+			mentioned[typ.Name()] = true
+		case *types.Named:
+			mentioned[typ.Obj().Name()] = true
+			if typ.Obj().Pkg() != nil {
+				mentioned[typ.Obj().Pkg().Name()] = true
+			}
+			if targs := typ.TypeArgs(); targs != nil {
+				for i := 0; i < targs.Len(); i++ {
+					walk(targs.At(i))
+				}
+			}
+		case *types.Pointer:
+			walk(typ.Elem())
+		case *types.Slice:
+			walk(typ.Elem())
+		case *types.Array:
+			walk(typ.Elem())
+		case *types.Chan:
+			walk(typ.Elem())
+		case *types.Map:
+			walk(typ.Key())
+			walk(typ.Elem())
+		case *types.Struct:
+			for i := 0; i < typ.NumFields(); i++ {
+				walk(typ.Field(i).Type())
+			}
+		case *types.Tuple:
+			for i := 0; i < typ.Len(); i++ {
+				walk(typ.At(i).Type())
+			}
+		case *types.Signature:
+			walk(typ.Params())
+			walk(typ.Results())
+		case *types.Interface:
+			for i := 0; i < typ.NumExplicitMethods(); i++ {
+				walk(typ.ExplicitMethod(i).Type())
+			}
+			for i := 0; i < typ.NumEmbeddeds(); i++ {
+				walk(typ.EmbeddedType(i))
+			}
+		}
+	}
+	walk(sig.Params())
+	walk(sig.Results())
+	shadows := make(map[string]bool)
+	for i := 0; i < sig.Params().Len(); i++ {
+		if name := sig.Params().At(i).Name(); mentioned[name] {
+			shadows[name] = true
+		}
+	}
+	return shadows
 }
 
 func hasBlankIdentifier(tup *types.Tuple) bool {
